@@ -422,6 +422,18 @@ theorem C08_idem (q : Request) (sh : Regs) (hsame : ∀ a ∈ q.block, q.target 
     have e := hsame 0x2F (mem _ (by simp))
     simp [hc, d1, wIf, e]
 
+/-- the same against the datasheet-level target and the DEVICE content, the third clause of
+    `P.C08`: if the request asks for what the device already holds on the builder's block, the
+    script is empty (every builder except pin mapping) -/
+theorem C08_idem_spec (q : Request) (sh chip : Regs) (hco : Coherent sh chip)
+    (hdef : ∀ x ∈ DS.cfgAddrs, DefAt sh x) (ws : List W) (h : q.script sh = .ok ws)
+    (hpin : isPin q = false) (hsame : ∀ a ∈ q.block, DS.Request.spec q chip a = chip a) : ws = [] := by
+  apply C08_idem q sh _ ws h
+  · intro l e; subst e; simp [isPin] at hpin
+  · intro a ha
+    have hc := block_sub_cfg q a ha
+    rw [(C02_target q sh chip hco hdef a hc).1, hsame a ha, hco a hc]
+
 /-- non-vacuity: fifo watermark change with the watermark interrupt enabled -/
 example : C08W [0x26, 0x27, 0x28, 0x29] (shadowDefault.set 0x27 5#8) (shadowDefault.set 0x1F 0x40#8)
     [⟨0x1F, 0x00#8⟩, ⟨0x27, 5#8⟩, ⟨0x1F, 0x40#8⟩] := by decide
